@@ -52,7 +52,7 @@ def World.addToGraph (w : World) (g : List Entry) (o : Nat) : World × List Entr
     | some (some r) =>
       if inGraph g r then (w, attach g (some r) o)
       else relink { w with warnings := w.warnings + 1 }
-    | _ => relink { w with warnings := w.warnings + 1 }   -- undefined reference (cyclic world)
+    | _ => relink { w with warnings := w.warnings + 1, undef := true }   -- undefined reference (cyclic world): RecursionError in the code
 
 /-- `CircuitCompositeOperation.add`. -/
 def World.add (w : World) (c o : Nat) : World :=
